@@ -368,7 +368,55 @@ func runC13(c *Ctx) {
 						}
 					}
 					same := false
+					// a result record: the stored value is a field of the returned struct variable, and neither
+					// the field nor the variable is written between the store and the return
 					for _, res := range results {
+						ro := objOfIdent(info, res)
+						se, isSel := ast.Unparen(sas.Rhs[0]).(*ast.SelectorExpr)
+						if ro == nil || !isSel || objOfIdent(info, se.X) != ro {
+							continue
+						}
+						if _, isStruct := ro.Type().Underlying().(*types.Struct); !isStruct {
+							continue
+						}
+						fk := exprKey(se)
+						writes := func(nd ast.Node) bool {
+							hit := false
+							inspectNoLit(nd, func(m ast.Node) bool {
+								switch x := m.(type) {
+								case *ast.AssignStmt:
+									for _, l := range x.Lhs {
+										if objOfIdent(info, l) == ro || exprKey(l) == fk {
+											hit = true
+										}
+									}
+								case *ast.IncDecStmt:
+									if exprKey(x.X) == fk {
+										hit = true
+									}
+								case *ast.UnaryExpr:
+									if x.Op == token.AND && rootObj(info, x.X) == ro {
+										hit = true
+									}
+								}
+								return !hit
+							})
+							return hit
+						}
+						if _, dirty := sf.reach(Point{st.B, st.I + 1}, nil, func(q Point, atExit bool) bool {
+							if atExit || !writes(sf.nodeAt(q)) {
+								return false
+							}
+							_, on := sf.reach(q, nil, func(q2 Point, e2 bool) bool { return !e2 && sf.At(q2, rpt) })
+							return on
+						}); !dirty {
+							same = true
+						}
+					}
+					for _, res := range results {
+						if same {
+							break
+						}
 						if t, st2 := info.TypeOf(res), info.TypeOf(sas.Rhs[0]); t == nil || st2 == nil {
 							continue
 						} else if _, tp := t.(*types.TypeParam); tp {
